@@ -4,6 +4,7 @@ import (
 	"errors"
 	"fmt"
 	"math/big"
+	"reflect"
 	"time"
 
 	core "github.com/iden3/go-iden3-core/v2"
@@ -12,9 +13,9 @@ import (
 )
 
 type credMut struct {
-	name       string
-	merklOnly  bool // bound only through the Merkle root (not for schemas with a serialization attribute)
-	apply      func(c *ACred, r *Rng) bool
+	name      string
+	merklOnly bool // bound only through the Merkle root (not for schemas with a serialization attribute)
+	apply     func(c *ACred, r *Rng) bool
 }
 
 func inSlots(c *ACred, name string) bool {
@@ -227,6 +228,28 @@ func emitBind(out *Out, r *Rng, s *verifySetup, c2 *ACred, cl *core.Claim, kind,
 	if errClass(verr) == "panic" {
 		why = append(why, verr.Error())
 	}
+	if kind == "credential" && mustReject && resign {
+		// the same change made in place, on a credential object that has already been verified once (and on a copy of it):
+		// what was derived from the earlier contents must not be reused
+		merklize.SetDocumentLoader(s.c.loader())
+		if vcA, err := s.c.W3C(); err == nil {
+			vcA.Proof = verifiable.CredentialProofs{s.is.SignBJJ(s.claim)}
+			c0 := 0
+			if e0 := runVerify(vcA, verifiable.BJJSignatureProofType, resolverCfg{mode: "unpublished"}.resolver(&c0), reg, s.c.loader()); e0 != nil {
+				why = append(why, "the unmodified credential does not verify: "+e0.Error())
+			} else {
+				merklize.SetDocumentLoader(c2.loader())
+				copyExported(vcA, vc2, "Proof")
+				cp := *vcA
+				for i, obj := range []*verifiable.W3CCredential{vcA, &cp} {
+					c1 := 0
+					if e1 := runVerify(obj, verifiable.BJJSignatureProofType, resolverCfg{mode: "unpublished"}.resolver(&c1), reg, c2.loader()); e1 == nil {
+						why = append(why, fmt.Sprintf("proof accepted after the %s was changed in place (%s) on an already verified credential object (copy=%v)", kind, name, i == 1))
+					}
+				}
+			}
+		}
+	}
 	root, rerr := directRoot(c2)
 	in := J{}
 	op := "claim.bind"
@@ -241,6 +264,21 @@ func emitBind(out *Out, r *Rng, s *verifySetup, c2 *ACred, cl *core.Claim, kind,
 	}
 	in["mutation"] = kind + ":" + name
 	out.Emit(Case{Op: op, In: in, Impl: impl, Prop: propOf(why), Tags: []string{"mut:" + kind + ":" + name, fmt.Sprintf("serialized:%v", c2.SerAttr != ""), fmt.Sprintf("mustReject:%v", mustReject)}, NT: true})
+}
+
+// copyExported assigns every exported field of src to dst (except the named ones); unexported state of dst stays as it is
+func copyExported(dst, src *verifiable.W3CCredential, except ...string) {
+	dv, sv := reflect.ValueOf(dst).Elem(), reflect.ValueOf(src).Elem()
+	for i := 0; i < dv.NumField(); i++ {
+		f := dv.Type().Field(i)
+		skip := f.PkgPath != ""
+		for _, e := range except {
+			skip = skip || f.Name == e
+		}
+		if !skip {
+			dv.Field(i).Set(sv.Field(i))
+		}
+	}
 }
 
 func cloneCred(c *ACred) *ACred {
